@@ -248,3 +248,7 @@ U_ORDER = Unit(P + '/determinism', [], t_order, SCHEMA, kind='frame',
                                 [P + '/determinism/no-clock'])])
 
 UNITS = [U_INV, U_ASSIGNS, U_CACHE, U_ORDER, C08.U_FSET]
+
+# Mininec.compute runs its four stages unconditionally and in order (contract stated with C07): together with the
+# assigns unit (every stage rewrites its outputs from inputs only) a second compute() cannot see the first.
+EXTRA_UNITS = [('contracts.C07', 'U_COMPUTE')]
